@@ -125,6 +125,47 @@ theorem app_state_guard (a : App) :
     (a.st ≠ .prepared → a.step .start = (a, [])) ∧ (a.st ≠ .normal → a.step .stop = (a, [])) := by
   constructor <;> intro h <;> simp [App.step, h]
 
+/-- **the start-completion callback sees a started application**: `App.Start`'s wrapper
+sets the state *before* it invokes the caller's `finish` (a step's `finish` is its last event and
+the step's resulting state is the state the callback observes — the driver runs scripted callbacks
+exactly there, and the differential run compares this with the real `App`).  So whenever a
+start-phase step reports success, the state is Normal and a `Stop` issued at that point — from
+inside the callback, or by a goroutine it woke up — is accepted: it begins the stop phase. -/
+theorem start_callback_sees_normal (a : App) (op : AOp)
+    (h : AEv.ev true (Ev.finish true) ∈ (a.step op).2) :
+    (a.step op).1.st = .normal ∧ AEv.begin false ∈ ((a.step op).1.step .stop).2 := by
+  have key : (a.step op).1.st = .normal := by
+    cases op with
+    | start =>
+      by_cases hp : a.st = .prepared
+      · simp only [App.step, hp, ne_eq, not_true_eq_false, ↓reduceIte] at h ⊢
+        have hm : Ev.finish true ∈ (filter a.n true).2 := by simpa using h
+        rw [onEvents_finish true _ _ hm]; rfl
+      · simp [App.step, hp] at h
+    | stop =>
+      by_cases hn : a.st = .normal
+      · simp [App.step, hn] at h
+      · simp [App.step, hn] at h
+    | call ph w b =>
+      simp only [App.step] at h ⊢
+      cases hml : (if ph = true then a.startML else a.stopML) with
+      | none => rw [hml] at h; simp at h
+      | some ml =>
+        rw [hml] at h
+        simp only at h ⊢
+        cases ph with
+        | false => simp at h
+        | true =>
+          have hm : Ev.finish true ∈ (ml.next b).2 := by simpa using h
+          simp only [↓reduceIte]
+          rw [onEvents_finish true _ _ hm]; rfl
+  refine ⟨key, ?_⟩
+  generalize (a.step op).1 = a' at key
+  simp [App.step, key]
+
+/-- non-vacuity: the last module's delayed success is such a step -/
+example : AEv.ev true (Ev.finish true) ∈ ((App.run 1 [.start]).1.step (.call true 0 true)).2 := by decide
+
 private theorem st_after_events (a : App) (ph : Bool) (es : List Ev) :
     (App.onEvents a ph es).st = a.st ∨ (App.onEvents a ph es).st = (if ph then .normal else .stopped) := by
   rcases onEvents_cases ph es a with ⟨_, h⟩ | ⟨_, h⟩ <;> rw [h] <;> simp
